@@ -321,13 +321,18 @@ pub fn byte_case(rng: &mut Rng, max_hay: usize) -> (u8, [u8; 3], Vec<u8>) {
 /// Adversarial (needle, haystack) families at a requested size, for the cost
 /// property.
 pub fn cost_pair(rng: &mut Rng, n: usize, m: usize) -> (Vec<u8>, Vec<u8>, &'static str) {
+    // every decision about the shape is drawn before any content, so that two
+    // calls from the same generator state with different sizes give the same
+    // shape (the two-size cost oracle relies on it)
+    let wear = rng.chance(1, 3);
+    let reps = rng.range(60, 200);
+    let wear_kind = rng.below(3);
     let (needle, mut hay, name) = cost_pair_inner(rng, n, m);
     // sometimes first wear the adaptive prefilter out (>= 50 candidates that
     // skip < 8 bytes each), so that the body is searched without it
-    if rng.chance(1, 3) && needle.len() >= 2 {
-        let reps = rng.range(60, 200);
+    if wear && needle.len() >= 2 {
         let mut prefix: Vec<u8> = Vec::new();
-        match rng.below(3) {
+        match wear_kind {
             0 => {
                 for _ in 0..reps {
                     prefix.extend_from_slice(&needle[..2]);
@@ -451,16 +456,48 @@ fn cost_pair_inner(rng: &mut Rng, n: usize, m: usize) -> (Vec<u8>, Vec<u8>, &'st
             // sits at a large offset, a haystack with a long candidate-free
             // prefix (keeps the prefilter "effective") and then that rare byte
             // at every other position
-            let m2 = m.min(rng.range(40, 255));
-            let mut needle = vec![b'e'; m2];
-            needle[m2 - 1] = b'Z';
+            let variant = rng.below(4);
+            let swap = rng.chance(1, 4);
+            let spacing = rng.range(8, 20);
+            let m2 = if variant == 0 { m.min(rng.range(40, 255)) } else { m.min(255) };
+            let (r1, r2) = if swap { (b'q', b'Z') } else { (b'Z', b'q') };
+            // variants 1..: the needle keeps its requested length; the rare
+            // pair sits within the first 255 bytes, as far apart as possible
+            let mut needle = vec![b'e'; if variant == 0 { m2 } else { m.max(2) }];
+            needle[m2 - 1] = r1;
             if m2 >= 3 {
-                needle[m2 / 3] = b'q';
+                needle[m2 / 3] = r2;
             }
-            let split = n / 2;
             let mut hay = vec![b'x'; n];
-            for i in split..n {
-                hay[i] = if i % 2 == 0 { b'Z' } else if i % 3 == 0 { b'q' } else { b'e' };
+            match variant {
+                0 => {
+                    let split = n / 2;
+                    for i in split..n {
+                        hay[i] = if i % 2 == 0 { r1 } else if i % 3 == 0 { r2 } else { b'e' };
+                    }
+                }
+                1 => {
+                    // one huge skip pays for n/16 later calls; each of them
+                    // walks over index1 occurrences of the rare byte before it
+                    // may report a candidate
+                    let split = n / 2;
+                    for i in split..n {
+                        hay[i] = if i % spacing == 0 { r2 } else { r1 };
+                    }
+                }
+                2 => {
+                    // no credit: candidates exactly far enough apart for the
+                    // prefilter to stay in use for ever
+                    for i in 0..n {
+                        hay[i] = if i % spacing == 0 { r2 } else { r1 };
+                    }
+                }
+                _ => {
+                    // the same with the common byte mixed in
+                    for i in 0..n {
+                        hay[i] = if i % spacing == 0 { r2 } else if i % 5 == 1 { b'e' } else { r1 };
+                    }
+                }
             }
             (needle, hay, "portable prefilter worst case")
         }
